@@ -121,6 +121,14 @@ def run_perms(case):
                 perms = 0x01 | decl_rng.choice([0x04, 0x10, 0x40, 0x14, 0x04, 0x10])  # readable + a read requirement
                 a.permissions = _att.Attribute.Permissions(perms)
                 targets.append({'attr': a, 'perms': perms, 'token': bytes(a.value)[:19], 'kind': 'declaration', 'char': None})
+        # SERVICE declarations restricted the same way (the application assigns service.permissions after building it): the
+        # declaration's value is the service UUID, which Read By Group Type / Read By Type hand out together with the handle range
+        for a in list(srv.gatt_server.attributes):
+            if a in built.services and decl_rng.random() < 0.35:
+                perms = 0x01 | decl_rng.choice([0x04, 0x10, 0x40, 0x14])
+                a.permissions = _att.Attribute.Permissions(perms)
+                targets.append({'attr': a, 'perms': perms, 'token': bytes(a.value), 'kind': 'declaration', 'char': None, 'service': True})
+                sim.probe('service_declaration_with_a_read_requirement')
         order = random.Random(case['order'])
         state = {'enc': False, 'authn': False, 'conn': None, 'bearers': {}, 'seen': []}
         nattr = len(srv.gatt_server.attributes)
@@ -231,6 +239,8 @@ def run_perms(case):
                 ):
                     rsp = ask(b, pdu)
                     leak_check(op.replace('_narrow', ''), rsp, link)
+                    if not rsp:
+                        sim.violation_once(f'noresp:{op}', f'no-response:{op.replace("_narrow", "")}:{(rwhy or ["permitted"])[0]}', f'request {pdu.hex()} got no answer at all')
                 # ---- Read By Type over the whole range: when the FIRST attribute of that type is refused for a security reason,
                 # the answer is that refusal (Error Response naming it), not the attributes that follow
                 same = sorted((x for x in targets if x['kind'] == 'value' and gattdb.uuid_bytes_from_obj(x['attr'].type) == typ), key=lambda x: x['attr'].handle)
